@@ -13,6 +13,11 @@ Definition im : Fr := F 0x8d51ccce760304d0ec030002760300000001000000000000.
 Lemma im_sq : im * im = - (1).
 Proof. apply fr_eq. vm_compute. reflexivity. Qed.
 
+(* Euler's criterion value for d: with Fermat's little theorem (not built here)
+   this is exactly [NonSquareD]; recorded as a closed computation *)
+Lemma ed_d_euler : fpow ed_d (Z.to_N ((r - 1) / 2)) = - (1).
+Proof. apply fr_eq. vm_compute. reflexivity. Qed.
+
 Section Curve.
 Context {PR : PrimeR} {ND : NonSquareD}.
 Add Field FrFieldJ : fr_field_theory.
